@@ -393,13 +393,30 @@ static int build_reply(const struct dnse_msg *m, uint8_t *buf, int cap, int rcod
 	return dm_finish(&d);
 }
 
+static void mark_id_owner(const uint8_t *p, int len);
 static void send_udp(const struct dnse_msg *m, const uint8_t *p, int len)
 {
+	mark_id_owner(p, len);
 	dnse_reply_udp(m, p, len);
 	dnse_wait_readable(client_udp_fd(m->ns));
 }
 
 static void mark(int r, unsigned s) { if (r >= 0 && r < nreqs) reqs[r].seen |= s; }
+/* A reply whose transaction id currently belongs to an in-flight request with another
+ * question (id reused after a cancel / completion) makes evdns end that request with an
+ * error — allowed ("an error", DESIGN app. A, C33): note it for the result-code oracle. */
+static void mark_id_owner(const uint8_t *p, int len)
+{
+	struct dm_query rq, own; int k;
+	if (!base_alive || dm_parse_query(p, len, &rq) < 0) return;
+	struct request *o = inflight_by_id(rq.id, &k);
+	if (!o || dm_parse_query(o->request, (int)o->request_len, &own) < 0) return;
+	if (own.qtype != rq.qtype || !dm_name_eq(own.qname, rq.qname)) {
+		int r = req_of_qname(own.qname);
+		if (r >= 0 && r < nreqs) reqs[r].seen |= S_GARBAGE;
+		MC_COUNT("replies_meeting_reused_id");
+	}
+}
 /* A reply that arrives when its request is gone (second copy, late reply) may meet
  * another request that meanwhile owns the same transaction id; evdns then ends that
  * request with an error (question mismatch) — allowed: "an error" (DESIGN app. A, C33). */
@@ -609,7 +626,8 @@ static void body(void)
 		int n = dnse_ns_collect(msgs, 24);
 		if (n) check_wire_ids(msgs, n);
 		user_action(NULL);
-		if (n && base_alive) {
+		if (!base_alive) break;
+		if (n) {
 			for (int i = 0; i < n && base_alive; i++) {
 				if (!msgs[i].decoded) continue;
 				if (msgs[i].tcp >= 0) answer_tcp(&msgs[i]); else answer_udp(&msgs[i]);
